@@ -16,6 +16,19 @@ def single_sample_specs(ctx):
                            target=rng.choice(["quad", "abs"]))
         sp["options"] = {"n_search": 32, "max_fun_evals": rng.choice([80, 110, 150]), "noise_final_samples": 1 if i % 4 else 0}
         specs.append(sp)
+    # noise that is tiny relative to the function value (e.g. a log-likelihood around 5e4): still far above tol_noise
+    for _ in range(3 if ctx.quick else 20):
+        sp = gen.make_spec(rng, D=rng.choice([1, 2]), mode="auto", geom="box", cons=None, opt_loc="inside", target="quad")
+        sp["yoffset"] = rng.choice([5e4, 1e3, -2e5])
+        sp["noise"] = rng.choice([0.05, 1e-3])
+        sp["options"] = {"n_search": 32, "max_fun_evals": 70, "noise_final_samples": 3}
+        specs.append(sp)
+    # deterministic targets with a large value: identical repeats, must stay deterministic
+    for _ in range(2 if ctx.quick else 8):
+        sp = gen.make_spec(rng, D=rng.choice([1, 2]), mode="det", geom="box", cons=None, opt_loc="inside", target="quad")
+        sp["yoffset"] = rng.choice([5e4, -2e5])
+        sp["options"] = {"n_search": 32, "max_fun_evals": 30}
+        specs.append(sp)
     return specs
 
 
